@@ -670,7 +670,8 @@ class Series(ContainerOperand):
                 container=self,
                 function_items=self._axis_group_items,
                 function_values=self._axis_group,
-                yield_type=IterNodeType.VALUES
+                yield_type=IterNodeType.VALUES,
+                apply_type=IterNodeApplyType.SERIES_ITEMS_FLAT, # labels are values, not labels of the index
                 )
 
     @property
@@ -679,7 +680,8 @@ class Series(ContainerOperand):
                 container=self,
                 function_items=self._axis_group_items,
                 function_values=self._axis_group,
-                yield_type=IterNodeType.ITEMS
+                yield_type=IterNodeType.ITEMS,
+                apply_type=IterNodeApplyType.SERIES_ITEMS_FLAT, # labels are values, not labels of the index
                 )
 
     #---------------------------------------------------------------------------
